@@ -416,7 +416,7 @@ func c08FileStamp(c *Check) {
 	p := c.P
 	n := 0
 	for _, f := range p.RepoFuncs() {
-		if fnPkgPath(f) != p.Pkg(parsePkg).PkgPath || !strings.HasSuffix(p.fnFile(f), "/parse.go") {
+		if fnPkgPath(f) != p.Pkg(parsePkg).PkgPath || strings.HasSuffix(p.fnFile(f), "_test.go") {
 			continue
 		}
 		root := f
@@ -439,7 +439,15 @@ func c08FileStamp(c *Check) {
 						return
 					}
 					own, fld, _, isF := fieldOfAddr(st.Addr)
-					if !isF || own == nil || own.Obj().Name() != "TreeShapeListener" || fld != "sc" {
+					// the listener's file stamp: whichever field of the listener is assigned
+					// from the current file's name (the source-context helper)
+					_ = fld
+					if !isF || own == nil || own.Obj().Name() != "TreeShapeListener" {
+						return
+					}
+					// the stamp is a record (file name, version), not a plain string such as
+					// the base directory of imports
+					if _, isStruct := st.Val.Type().Underlying().(*types.Struct); !isStruct {
 						return
 					}
 					dep := derives(st.Val, func(v ssa.Value) bool {
@@ -473,7 +481,7 @@ func c08FileStamp(c *Check) {
 		})
 	}
 	if n < 2 {
-		c.Undecidedf("FILE-STAMP", "walks", "-", "expected two tree walks in parse.go, found %d", n)
+		c.Undecidedf("FILE-STAMP", "walks", "-", "expected two tree walks in pkg/parse, found %d", n)
 	}
 }
 
